@@ -141,6 +141,13 @@ Proof.
   - rewrite Z.add_0_r. reflexivity.
   - rewrite IH by lia. replace (k + 1 + Z.of_nat i)%Z with (k + Z.of_nat (S i))%Z by lia. reflexivity.
 Qed.
+(** the last recorded sample of every variable is the element's current attribute (the duty cycle apart: the user may assign it between runs) *)
+Lemma reachable_last_sample_ : forall ops p w st t s h, exec c load ops (initial p w) = Ok st -> y_hist st = (t, s) :: h ->
+  exists v1, live_of s = Ok v1 /\ same_but_pwm v1 (y_live st).
+Proof.
+  intros ops p w st t s h He E. destruct (exec_inv c load ops _ _ (initial_inv c load p w) He) as (_ & Hl & _). rewrite E in Hl. exact Hl.
+Qed.
 End Run.
 Definition run_records_grid := @run_records_grid_.
 Definition reachable_lengths := @reachable_lengths_.
+Definition reachable_last_sample := @reachable_last_sample_.
